@@ -70,16 +70,21 @@ MustGetRandomIntRange(bits) == 0..(Pow2(bits) - 2)
 IsNumberInMultiplicativeGroup(n, v) == n > 0 /\ v < n /\ v >= 1 /\ Gcd(v, n) = 1
 
 Fns == {"MustGetRandomInt", "GetRandomPositiveInt", "GetRandomPositiveRelativelyPrimeInt",
-        "GetRandomGeneratorOfTheQuadraticResidue", "GetRandomQuadraticNonResidue"}
+        "GetRandomGeneratorOfTheQuadraticResidue", "GetRandomQuadraticNonResidue", "GetRandomPrimeInt"}
 
-(* the arguments each helper is defined for (n <= 0 returns nil; a non residue is asked of an odd n) *)
+(* the arguments each helper is defined for (n <= 0 returns nil; a non residue is asked of an odd n; *)
+(* there is no prime of one bit; TLC's integers bound the bit counts)                                *)
 Domain(fn, a) ==
-  CASE fn = "MustGetRandomInt"             -> a \in 1..15
+  CASE fn = "MustGetRandomInt"             -> a \in 1..12
+    [] fn = "GetRandomPrimeInt"            -> a \in 2..15
     [] fn = "GetRandomQuadraticNonResidue" -> a >= 1 /\ a % 2 = 1
     [] OTHER                               -> a >= 1
 
-(* the draw of one loop iteration *)
-DrawRange(fn, a) == IF fn = "MustGetRandomInt" THEN MustGetRandomIntRange(a) ELSE MustGetRandomIntRange(BitLen(a))
+(* the draw of one loop iteration (GetRandomPrimeInt delegates to crypto/rand.Prime: candidates of exactly a bits) *)
+DrawRange(fn, a) ==
+  CASE fn = "MustGetRandomInt"  -> MustGetRandomIntRange(a)
+    [] fn = "GetRandomPrimeInt" -> Pow2(a - 1)..(Pow2(a) - 1)
+    [] OTHER                    -> MustGetRandomIntRange(BitLen(a))
 
 (* the loop's exit condition *)
 Accept(fn, a, try) ==
@@ -88,6 +93,7 @@ Accept(fn, a, try) ==
     [] fn = "GetRandomPositiveRelativelyPrimeInt"      -> IsNumberInMultiplicativeGroup(a, try)
     [] fn = "GetRandomGeneratorOfTheQuadraticResidue"  -> IsNumberInMultiplicativeGroup(a, try)
     [] fn = "GetRandomQuadraticNonResidue"             -> try < a /\ Jacobi(try, a) = -1
+    [] fn = "GetRandomPrimeInt"                        -> IsPrime(try)
 
 (* what is returned for an accepted draw *)
 Result(fn, a, try) == IF fn = "GetRandomGeneratorOfTheQuadraticResidue" THEN (try * try) % a ELSE try
@@ -99,6 +105,7 @@ Documented(fn, a, v) ==
     [] fn = "GetRandomPositiveRelativelyPrimeInt"      -> 1 <= v /\ v < a /\ Gcd(v, a) = 1
     [] fn = "GetRandomGeneratorOfTheQuadraticResidue"  -> 1 <= v /\ v < a /\ Gcd(v, a) = 1 /\ IsSquareMod(v, a)
     [] fn = "GetRandomQuadraticNonResidue"             -> 0 <= v /\ v < a /\ Gcd(v, a) = 1 /\ ~IsResidue(v, a)
+    [] fn = "GetRandomPrimeInt"                        -> IsPrime(v) /\ BitLen(v) = a
 
 Returnable(fn, a) == {Result(fn, a, t) : t \in {t \in DrawRange(fn, a) : Accept(fn, a, t)}}
 CanReturn(fn, a)  == \E t \in DrawRange(fn, a) : Accept(fn, a, t)
